@@ -505,11 +505,25 @@ func (c *Ctx) c08CompileEach() {
 	c.FuncsSeen[fname(f)] = true
 	key := fname(f) + "/compile-each"
 	var compiles []*ssa.Call
+	isCompile := func(n string) bool { return n == "regexp.Compile" || n == "regexp.MustCompile" || n == "regexp.CompilePOSIX" }
 	allInstrs(f, func(in ssa.Instruction) {
 		if cl, ok := in.(*ssa.Call); ok {
 			n := calleeFull(&cl.Call)
-			if n == "regexp.Compile" || n == "regexp.MustCompile" || n == "regexp.CompilePOSIX" {
+			if isCompile(n) {
 				compiles = append(compiles, cl)
+				return
+			}
+			// a package-local helper that compiles its own string parameter and returns (regexp, error)
+			if g := staticCallee(&cl.Call); g != nil && inPkg(fsPkgRel)(g) && g.Blocks != nil && g != f && len(cl.Call.Args) == 1 {
+				wraps := false
+				allInstrs(g, func(j ssa.Instruction) {
+					if hc, ok := j.(*ssa.Call); ok && isCompile(calleeFull(&hc.Call)) && calleeFull(&hc.Call) != "regexp.MustCompile" && len(g.Params) == 1 && resolveValue(hc.Call.Args[0]) == ssa.Value(g.Params[0]) {
+						wraps = true
+					}
+				})
+				if wraps {
+					compiles = append(compiles, cl)
+				}
 			}
 		}
 	})
